@@ -298,8 +298,13 @@ class Gen:
             p_reg = 0.0
         out = []
         c = self.point()
+        # time steps: consecutive, or (one trajectory in three) with gaps — `Trajectory` only requires that the first state is
+        # at the initial time step and that time steps increase; every <state> carries its own <time>
+        gaps = n > 1 and self.every("traj-steps", ["consecutive", "gaps", "consecutive"]) == "gaps"
+        t = t0
         for i in range(n):
-            a = {"time_step": t0 + i}
+            a = {"time_step": t}
+            t += self.r.choice([2, 3, 1, 7]) if gaps else 1
             for nm in names:
                 if nm == "position":
                     a[nm] = {"shape": self.single_shape()} if self.flip(p_reg) else {"pt": self.point(c, 5.0)}
